@@ -4,13 +4,13 @@
    compiled code on every run.  `dist adj i j o` : o = Some d, d the minimum walk length, or o = None, unreachable. *)
 From Coq Require Import Permutation.
 From Adapt Require Import Num.Qaux Graph.Paths Graph.FloydWarshallModel Graph.FloydWarshall
-  Graph.DijkstraModel Graph.Dijkstra Graph.BellmanFord Graph.PairingHeapModel Graph.PairingHeap.
+  Graph.FloydWarshallLit Graph.DijkstraModel Graph.Dijkstra Graph.BellmanFord Graph.PairingHeapModel Graph.PairingHeap.
 Local Open Scope Q_scope.
 
 (* Floyd-Warshall with the repaired initialisation (minimum of parallel edges, self-loops skipped): every
    well-formed multigraph *)
-Theorem C17_fw_correct_fixed n es i j :
-  wf_graph n es -> (i < n)%nat -> (j < n)%nat -> dist (adj_of es) i j (mget (fw_fixed n es) i j).
+Theorem C17_fw_correct_fixed n es :
+  wf_graph n es -> forall i j, (i < n)%nat -> (j < n)%nat -> dist (adj_of es) i j (mget (fw_fixed n es) i j).
 Proof. exact (fw_correct_fixed n es). Qed.
 Print Assumptions C17_fw_correct_fixed.
 
@@ -25,9 +25,9 @@ Proof. exact (fw_fixed_symmetric n es i j). Qed.
 Print Assumptions C17_fw_fixed_symmetric.
 
 (* Floyd-Warshall with the initialisation of the snapshot (D[u][v] = D[v][u] = w): only under the hypothesis *)
-Theorem C17_fw_correct n es i j :
+Theorem C17_fw_correct n es :
   wf_graph n es -> no_self_loops es -> parallel_equal es ->
-  (i < n)%nat -> (j < n)%nat -> dist (adj_of es) i j (mget (fw_current n es) i j).
+  forall i j, (i < n)%nat -> (j < n)%nat -> dist (adj_of es) i j (mget (fw_current n es) i j).
 Proof. exact (fw_correct n es). Qed.
 Print Assumptions C17_fw_correct.
 
@@ -52,6 +52,27 @@ Theorem C17_fw_refuted_diag :
   exists n es i, wf_graph n es /\ (i < n)%nat /\ ~ oeq (mget (fw_current n es) i i) (Some 0).
 Proof. exact fw_refuted_diag. Qed.
 Print Assumptions C17_fw_refuted_diag.
+
+(* the literal element-wise triple loop (the C++ as written) computes the same matrix as the row-organised loops
+   the theorems above are about; so they hold for it as well *)
+Theorem C17_fw_loops_lit_eq n D : shaped n D -> fw_loops_lit n D = fw_loops n D.
+Proof. exact (fw_loops_lit_eq n D). Qed.
+Print Assumptions C17_fw_loops_lit_eq.
+
+Theorem C17_fw_correct_fixed_lit n es : wf_graph n es ->
+  forall i j, (i < n)%nat -> (j < n)%nat -> dist (adj_of es) i j (mget (fw_fixed_lit n es) i j).
+Proof. exact (fw_correct_fixed_lit n es). Qed.
+Print Assumptions C17_fw_correct_fixed_lit.
+
+Theorem C17_fw_correct_lit n es : wf_graph n es -> no_self_loops es -> parallel_equal es ->
+  forall i j, (i < n)%nat -> (j < n)%nat -> dist (adj_of es) i j (mget (fw_current_lit n es) i j).
+Proof. exact (fw_correct_lit n es). Qed.
+Print Assumptions C17_fw_correct_lit.
+
+Theorem C17_fw_refuted_lit :
+  exists n es i j, wf_graph n es /\ (i < n)%nat /\ (j < n)%nat /\ ~ dist (adj_of es) i j (mget (fw_current_lit n es) i j).
+Proof. exact fw_refuted_lit. Qed.
+Print Assumptions C17_fw_refuted_lit.
 
 (* Dijkstra, generic: any vertex type with decidable equality, any adjacency function with non-negative weights
    on a finite closed vertex set, any finite map, any queue returning an element of minimal key *)
@@ -88,24 +109,24 @@ Proof. exact dijkstra_optimal. Qed.
 Print Assumptions C17_dijkstra_optimal.
 
 (* the libcola instance: johnsons = Dijkstra from every source; it never runs out of fuel *)
-Theorem C17_johnsons_correct n es J :
-  wf_graph n es -> johnsons n es = Some J ->
+Theorem C17_johnsons_correct n es :
+  wf_graph n es -> forall J, johnsons n es = Some J ->
   forall i j, (i < n)%nat -> (j < n)%nat -> dist (adj_of es) i j (mget J i j).
 Proof. exact (johnsons_correct n es). Qed.
 Print Assumptions C17_johnsons_correct.
 
-Theorem C17_johnsons_total n es : wf_graph n es -> exists J, johnsons n es = Some J.
+Theorem C17_johnsons_total n es : exists J, johnsons n es = Some J.
 Proof. exact (johnsons_total n es). Qed.
 Print Assumptions C17_johnsons_total.
 
-Theorem C17_johnsons_eq_fw_fixed n es J :
-  wf_graph n es -> johnsons n es = Some J ->
+Theorem C17_johnsons_eq_fw_fixed n es :
+  wf_graph n es -> forall J, johnsons n es = Some J ->
   forall i j, (i < n)%nat -> (j < n)%nat -> oeq (mget J i j) (mget (fw_fixed n es) i j).
 Proof. exact (johnsons_eq_fw_fixed n es). Qed.
 Print Assumptions C17_johnsons_eq_fw_fixed.
 
-Theorem C17_johnsons_eq_fw n es J :
-  wf_graph n es -> no_self_loops es -> parallel_equal es -> johnsons n es = Some J ->
+Theorem C17_johnsons_eq_fw n es :
+  wf_graph n es -> forall J, no_self_loops es -> parallel_equal es -> johnsons n es = Some J ->
   forall i j, (i < n)%nat -> (j < n)%nat -> oeq (mget J i j) (mget (fw_current n es) i j).
 Proof. exact (johnsons_eq_fw n es). Qed.
 Print Assumptions C17_johnsons_eq_fw.
@@ -122,7 +143,54 @@ Proof. exact (path_lengths_scaled n es ideal D G). Qed.
 Print Assumptions C17_path_lengths_scaled.
 
 (* the oracle the search uses *)
-Theorem C17_bf_correct n es s d :
-  wf_graph n es -> (s < n)%nat -> bf n es s = Some d -> forall t, (t < n)%nat -> dist (adj_of es) s t (dget d t).
+Theorem C17_bf_correct n es :
+  wf_graph n es -> forall s, (s < n)%nat -> forall d, bf n es s = Some d -> forall t, (t < n)%nat -> dist (adj_of es) s t (dget d t).
 Proof. exact (bf_correct n es). Qed.
 Print Assumptions C17_bf_correct.
+
+(* the pairing heap: every operation sequence keeps heap order; findMin / extractMin return an element no stored
+   element is less than; extractMin removes exactly that element.  lt: any asymmetric, negatively transitive
+   comparator *)
+Theorem C17_heap_min :
+  forall (E : Type) (lt : E -> E -> bool),
+  (forall x y, lt x y = true -> lt y x = false) ->
+  (forall x y z, lt x y = false -> lt y z = false -> lt x z = false) ->
+  forall ops h, hinv E lt h -> ops_ok E lt h ops ->
+    let h' := run E lt h ops in
+    hinv E lt h' /\
+    (forall x, find_min E h' = Some x -> forall i y, In (i, y) (elems E (root E h')) -> lt y x = false) /\
+    (find_min E h' = None <-> elems E (root E h') = []) /\
+    (forall x h'', heap_extract_min E lt h' = Some (x, h'') ->
+        hinv E lt h'' /\ (forall i y, In (i, y) (elems E (root E h')) -> lt y x = false) /\
+        exists i, Permutation (elems E (root E h')) ((i, x) :: elems E (root E h''))).
+Proof. exact heap_min. Qed.
+Print Assumptions C17_heap_min.
+
+(* multiset effect of each operation on the stored (node identity, element) pairs *)
+Theorem C17_heap_insert_multiset :
+  forall (E : Type) (lt : E -> E -> bool), (forall x y, lt x y = true -> lt y x = false) ->
+  forall id x h, hinv E lt h -> ~ In id (ids E (root E h)) ->
+    hinv E lt (heap_insert E lt id x h) /\
+    Permutation (elems E (root E (heap_insert E lt id x h))) ((id, x) :: elems E (root E h)).
+Proof. exact insert_spec. Qed.
+Print Assumptions C17_heap_insert_multiset.
+
+Theorem C17_heap_decrease_key_multiset :
+  forall (E : Type) (lt : E -> E -> bool), (forall x y, lt x y = true -> lt y x = false) ->
+  (forall x y z, lt x y = false -> lt y z = false -> lt x z = false) ->
+  forall id x h, hinv E lt h -> In id (ids E (root E h)) ->
+    (forall old, In (id, old) (elems E (root E h)) -> lt old x = false) ->
+    hinv E lt (decrease_key E lt id x h) /\
+    exists old rest, Permutation (elems E (root E h)) ((id, old) :: rest) /\
+                     Permutation (elems E (root E (decrease_key E lt id x h))) ((id, x) :: rest).
+Proof. exact decrease_key_spec. Qed.
+Print Assumptions C17_heap_decrease_key_multiset.
+
+Theorem C17_heap_merge_multiset :
+  forall (E : Type) (lt : E -> E -> bool), (forall x y, lt x y = true -> lt y x = false) ->
+  forall h rhs, hinv E lt h -> hinv E lt rhs ->
+    (forall i, In i (ids E (root E h)) -> ~ In i (ids E (root E rhs))) ->
+    hinv E lt (heap_merge E lt h rhs) /\
+    Permutation (elems E (root E (heap_merge E lt h rhs))) (elems E (root E h) ++ elems E (root E rhs)).
+Proof. exact merge_spec. Qed.
+Print Assumptions C17_heap_merge_multiset.
